@@ -22,6 +22,13 @@ def jobs(tier):
     for L in ([15, 22] if q else [9, 15, 22, 29, 57, 100]):
         for ivl in ([None, '1/100', '19/100'] if q else [None, '1/100', '1/20', '1/10', '19/100']):
             J('h_orig_bam', L=L, interval=ivl)
+    # BAM pacing while the job thread has other work that takes time (every send call of a pass takes 1 ms / 0.5 ms)
+    J('h_orig_bam_busy', L=29, burst=12)
+    J('h_orig_bam_busy', L=22, burst=30, tx='1/2000', interval='1/10')
+    if not q:
+        for burst in (3, 20, 45):
+            for ivl in (None, '1/50', '1/10'):
+                J('h_orig_bam_busy', L=36, burst=burst, interval=ivl)
     if not q:
         J('h_resp_cmdt', L=1785, windows=255, gap='1/100', limit=16)
         J('h_resp_cmdt', L=140)
@@ -35,6 +42,7 @@ def meta(tier):
         'bounds': ['J1939-21 stack as originator vs reference responder: every CTS grant symbolic, holds before chosen grants, stack window symbolic 1..255; lengths ' + ('{9,15,22,29,36}' if tier == 'quick' else '9..57 step 3'),
                    'J1939-21 stack as responder vs reference originator: RTS limit symbolic 1..255, own maximum symbolic 1..255',
                    'minimum_tp_rts_cts_dt_interval in {None, 1, 10, 50 ms}; minimum_tp_bam_dt_interval in {default, 10, 50, 100, 190 ms}; spacing claims over symbolic instants (scheduling latency symbolic 10 us..2 ms)',
+                   'BAM pacing under load (J1939-21): an RTS/CTS burst of 12 / 30 packets handled by the same job thread, every send call taking 1 / 0.5 ms, CTS arriving at a symbolic instant around a BAM deadline',
                    'J1939-22: see the tpref22 jobs'],
         'outside': ['the gap between the last packet of one CTS window and the first packet after the next CTS (governed by the peer\'s clearance, not by the configured interval: observation O-C09-1 in DESIGN)',
                     'peer reactions faster than 2.5 ms',
